@@ -9,6 +9,8 @@
 //   zidx_enum <variants> <zones> <op> <lit>           variants: hex,hex | _ ; zone: zid:cell,cell ; zones joined by ;
 //   zidx_temp <ts|f> <zones> <op> <lit>
 //   zidx_xor  <zones> <op> <lit>
+//   zidx_ctx  <b<k>|x> <zones> <probes>               the context index (ZoneIndex) through ZoneWriter::write_all
+//             zone: zid:<evt hex>:<ctx hex>,<ctx hex> ; probe: <evt hex>/<ctx hex> or <evt hex>/~ (no context)
 // cell / literal: i<int> Int64, t<int> Timestamp, s<hex> Utf8 ("s-" = ""), f<bits>[/<hex display>] Float64,
 //                 b0|b1 Boolean, n Null, ~ (cells only) the row has no such payload key.
 use crate::probes::unhex;
@@ -308,8 +310,114 @@ fn run_xor(t: &[String]) -> String {
             if p.disp_ok && lok { "ok" } else { "BAD" }, ck, have, own, show(zres), fres)
 }
 
+// ---------------------------------------------------------------- context index (part C)
+// The REAL build path: ZonePlan::build_all (mode b<k>) or explicit ZonePlans (mode x) ->
+// ZoneWriter::write_all into a temp segment directory -> the `{uid}.idx` file is loaded back with the
+// read side's loader (ZoneArtifacts::load_zone_index -> ZoneIndex::load_from_path) -> find_candidate_zones
+// for every probe (event type, optional context), as IndexZoneSelector does.
+//   -> shape=<ok|BAD> idx=<evt>>ctx=z.z,ctx=z;<evt>>... res=S:..|S:..
+// idx is the loaded index with every zone list sorted and de-duplicated (the zone SET per context; how
+// many times a zone is pushed is not observable through find_candidate_zones).
+fn ctx_event(evt: &str, ctx: &str, i: usize) -> Event {
+    serde_json::from_value(serde_json::json!({
+        "event_type": evt, "context_id": ctx, "timestamp": 1_700_000_000u64 + i as u64,
+        "payload": { "k": format!("v{}", i) }
+    }))
+    .expect("event")
+}
+
+fn run_ctx(t: &[String]) -> String {
+    use snel_db::engine::core::{ZoneIndex, ZoneWriter};
+    let s_of = |h: &str| String::from_utf8(unhex(h)).expect("utf8");
+    // zones of the line
+    let mut zones: Vec<(u32, String, Vec<String>)> = Vec::new();
+    for z in t[2].split(';') {
+        let mut it = z.splitn(3, ':');
+        let zid = it.next().unwrap().parse::<u32>().expect("zid");
+        let evt = s_of(it.next().expect("evt"));
+        let ctxs: Vec<String> = it.next().expect("ctxs").split(',').map(|h| s_of(h)).collect();
+        zones.push((zid, evt, ctxs));
+    }
+    let tmp = tempfile::tempdir().unwrap();
+    let base: PathBuf = tmp.path().to_path_buf();
+    let seg_dir = base.join(SEG);
+    std::fs::create_dir_all(&seg_dir).unwrap();
+    // every event type of the line is defined, in order of first appearance
+    let mut reg = SchemaRegistry::new_with_path(tmp.path().join("schemas.bin")).expect("registry");
+    let mut seen: Vec<String> = Vec::new();
+    for (_, evt, _) in &zones {
+        if !seen.contains(evt) {
+            let mut fields = HashMap::new();
+            fields.insert("k".to_string(), FieldType::String);
+            reg.define(evt, MiniSchema { fields }).expect("define");
+            seen.push(evt.clone());
+        }
+    }
+    let uid = reg.get_uid(&zones[0].1).expect("uid");
+    let reg = Arc::new(RwLock::new(reg));
+    let mut shape_ok = true;
+    let mut row = 0usize;
+    let zps: Vec<ZonePlan> = if let Some(k) = t[1].strip_prefix('b') {
+        let k: usize = k.parse().expect("rows per zone");
+        let mut events = Vec::new();
+        for (_, evt, ctxs) in &zones {
+            for c in ctxs {
+                events.push(ctx_event(evt, c, row));
+                row += 1;
+            }
+        }
+        let zps = ZonePlan::build_all(&events, k, uid.clone(), 1).expect("build_all");
+        // the generator's idea of the zones must be what the planner made of the rows
+        shape_ok = zps.len() == zones.len()
+            && zps.iter().zip(zones.iter()).all(|(zp, (zid, evt, ctxs))| {
+                zp.id == *zid && &zp.event_type == evt
+                    && zp.events.iter().map(|e| e.context_id.as_str()).eq(ctxs.iter().map(|c| c.as_str()))
+            });
+        zps
+    } else {
+        let mut out = Vec::new();
+        for (zid, evt, ctxs) in &zones {
+            let start = row;
+            let mut events = Vec::new();
+            for c in ctxs {
+                events.push(ctx_event(evt, c, row));
+                row += 1;
+            }
+            out.push(ZonePlan {
+                id: *zid, start_index: start, end_index: row - 1, events,
+                uid: uid.clone(), event_type: evt.clone(), segment_id: 1, created_at: 0,
+            });
+        }
+        out
+    };
+    if let Err(e) = block_on(ZoneWriter::new(&uid, &seg_dir, reg.clone()).write_all(&zps)) {
+        return format!("BUILD_ERR {:?}", e).replace(' ', "_");
+    }
+    let arts = ZoneArtifacts { base_dir: &base, caches: None };
+    let index: Arc<ZoneIndex> = match arts.load_zone_index(SEG, &uid) {
+        Ok(ix) => ix,
+        Err(e) => return format!("LOAD_ERR {}", e).replace(' ', "_"),
+    };
+    let dump = index.index.iter().map(|(evt, cm)| {
+        format!("{}>{}", hexs(evt.as_bytes()), cm.iter().map(|(c, zs)| {
+            let mut z = zs.clone();
+            z.sort();
+            z.dedup();
+            format!("{}={}", hexs(c.as_bytes()), z.iter().map(|x| x.to_string()).collect::<Vec<_>>().join("."))
+        }).collect::<Vec<_>>().join(","))
+    }).collect::<Vec<_>>().join(";");
+    let res: Vec<String> = t[3].split(',').map(|p| {
+        let (e, c) = p.split_once('/').expect("probe");
+        let evt = s_of(e);
+        let ctx = if c == "~" { None } else { Some(s_of(c)) };
+        show(Some(index.find_candidate_zones(&evt, ctx.as_deref(), SEG)))
+    }).collect();
+    format!("shape={} idx={} res={}", if shape_ok { "ok" } else { "BAD" }, if dump.is_empty() { "_".to_string() } else { dump }, res.join("|"))
+}
+
 pub fn run(t: &[String]) -> String {
     match t[0].as_str() {
+        "zidx_ctx" => run_ctx(t),
         "zidx_hash" => {
             let s = String::from_utf8(unhex(&t[1])).expect("utf8");
             stable_hash64(&s).to_string()
